@@ -31,12 +31,13 @@ TIERS = {
     # batches: (cases, length, scale, features)
     "quick": dict(mc_cfg="MC_Ledger_quick.cfg", mc_timeout=300,
                   batches=[(120, 10, "1", "default"), (30, 10, "2p64", "default"), (48, 8, "1", "sweep"),
-                           (30, 12, "1", "multi"), (2, 8, "1", "featsweep"), (32, 8, "1", "impexp")]),
+                           (30, 12, "1", "multi"), (2, 8, "1", "featsweep"), (32, 8, "1", "impexp"),
+                           (24, 12, "1", "blocks")]),
     "thorough": dict(mc_cfg="MC_Ledger_thorough.cfg", mc_timeout=3000,
                      batches=[(1500, 12, "1", "default"), (300, 12, "2p53", "default"), (300, 12, "2p63", "default"),
                               (300, 12, "2p64", "default"), (300, 12, "1e30", "default"), (480, 10, "prime", "sweep"),
                               (400, 14, "1", "multi"), (16, 10, "1", "featsweep"), (400, 10, "1", "impexp"),
-                              (100, 10, "2p64", "impexp")]),
+                              (100, 10, "2p64", "impexp"), (300, 14, "1", "blocks")]),
 }
 
 # outcome mismatches that no tagged predicate explains are attributed by operation kind
@@ -238,6 +239,7 @@ def negative_control(d, seed, pred_expected, mutate):
         by_case.setdefault(ln["case"], []).append(ln)
     cands = [c for c in sorted(by_case) if c not in bad_cases]
     rnd.shuffle(cands)
+    tried = []
     for c in cands:
         cl = json.loads(json.dumps(by_case[c]))
         if not mutate(cl):
@@ -251,10 +253,17 @@ def negative_control(d, seed, pred_expected, mutate):
             r, fails = run_report(p, 300)
             preds = set(f[0] for f in fails)
             if pred_expected in preds:
-                return dict(case=c, rejected_by=sorted(preds))
-            raise vlib.Inconclusive("negative control not rejected by %s (got %s): the binding is broken" % (pred_expected, sorted(preds)))
+                return dict(case=c, rejected_by=sorted(preds), corrupted_cases_tried=len(tried) + 1)
+            if not preds:
+                raise vlib.Inconclusive("negative control: a corrupted trace (case %s) was accepted: the binding is broken" % c)
+            # rejected, but by the predicates of the fields the corruption also touches: try another case
+            tried.append((c, sorted(preds)))
+            if len(tried) >= 4:
+                break
         finally:
             shutil.rmtree(tmp, ignore_errors=True)
+    if tried:
+        raise vlib.Inconclusive("negative control not rejected by %s (got %s): the binding is broken" % (pred_expected, tried))
     raise vlib.Inconclusive("negative control: no applicable case for %s" % pred_expected)
 
 
